@@ -575,6 +575,7 @@ CASES = [
  dict(name="c16-streamsink-ctor-drops-override", ids=["C16"], rule="C16.R5b", subs=[("sinks/StreamSink.h", "    : Sink(override_pattern_formatter_options),", "    : Sink(),")]),
  dict(name="c16-consolesink-config-setter-noop", ids=["C16"], rule="C16.R5a", subs=[("sinks/ConsoleSink.h", "    _override_pattern_formatter_options = options;", "    (void)options;")]),
  dict(name="c16-options-eq-ignores-multiline-flag", ids=["C16", "C12", "C13"], rule="R", subs=[("core/PatternFormatterOptions.h", " &&\n      add_metadata_to_multi_line_logs == other.add_metadata_to_multi_line_logs;", ";")]),
+ dict(name="c17-csvwriter-nonblocking-removal", ids=["C17"], rule="C17.R9a", subs=[("CsvWriter.h", "  ~CsvWriter() { frontend_t::remove_logger_blocking(_logger); }", "  ~CsvWriter() { frontend_t::remove_logger(_logger); }")]),
  dict(name="c17-get_number_of_loggers-no-lock", ids=["C17"], rule="C17.R1", subs=[(LM, """  QUILL_NODISCARD size_t get_number_of_loggers() const noexcept
   {
     LockGuard const lock{_spinlock};
@@ -1113,6 +1114,36 @@ CASES = [
 
 """, "")]),
  dict(name="c10-notifier-normalised-on-the-wrong-outcome", ids=["C10"], rule="C10.R8", subs=[("backend/BackendWorker.h", "    if (!_options.error_notifier)\n    {\n      // an undefined", "    if (_options.error_notifier)\n    {\n      // an undefined")]),
+ dict(name="c04-char-array-terminator-dropped", ids=["C04"], rule="C04.R12", subs=[(CDC, "        buffer[N] = std::byte{'\\0'};\n", "")]),
+ dict(name="c04-argstore-list-not-linked", ids=["C04"], rule="C04.R6g", subs=[("core/DynamicFormatArgStore.h", "    new_node->next = std::move(_head);\n", "")]),
+ dict(name="c04-sizecache-second-growth-loses-elements", ids=["C04"], rule="C04.R11c", subs=[("core/InlinedVector.h", "          new_data[i] = _storage.heap_buffer[i];", "          (void)i;")]),
+ dict(name="c04-runtime-metadata-not-sanitised", ids=["C04"], rule="C04.R6j", subs=[(BW, """    if (_options.check_printable_char)
+    {
+      // sanitize non-printable characters if enabled.
+      sanitize_non_printable_chars(*transit_event->formatted_msg, _options);
+    }""", """    if (!_options.check_printable_char)
+    {
+      // sanitize non-printable characters if enabled.
+      sanitize_non_printable_chars(*transit_event->formatted_msg, _options);
+    }""")]),
+ dict(name="c04-sanitiser-skipped-for-dynamic-level", ids=["C04"], rule="C04.R6i", subs=[(BW, """        // we do not want to sanitise LogWithRuntimeMetadata yet because it includes a special separator
+        // if non-printable chars check is configured or if any of the provided arguments are strings
+        sanitize_non_printable_chars(*transit_event->formatted_msg, _options);""", """        // we do not want to sanitise LogWithRuntimeMetadata yet because it includes a special separator
+        // if non-printable chars check is configured or if any of the provided arguments are strings
+        if (transit_event->macro_metadata->log_level() != LogLevel::Dynamic)
+        {
+          sanitize_non_printable_chars(*transit_event->formatted_msg, _options);
+        }""")]),
+ dict(name="c07-exit-leaves-last-event-buffered", ids=["C07", "C03"], rule="R1", subs=[(BW, "      if (cached_transit_events_count > 0)\n", "      if (cached_transit_events_count > 1)\n")]),
+ dict(name="c05-pending-scan-on-stale-cache", ids=["C05"], rule="C05.R4d", subs=[(BW, "  QUILL_ATTRIBUTE_HOT bool has_pending_events_for_caching_when_transit_event_buffer_empty() noexcept\n  {\n    _update_active_thread_contexts_cache();\n", "  QUILL_ATTRIBUTE_HOT bool has_pending_events_for_caching_when_transit_event_buffer_empty() noexcept\n  {\n")]),
+ dict(name="c10-error-text-appended-to-partial-message", ids=["C10"], rule="C10.R11", subs=[(BW, "    QUILL_CATCH(std::exception const& e)\n    {\n      transit_event->formatted_msg->clear();\n", "    QUILL_CATCH(std::exception const& e)\n    {\n")]),
+ dict(name="c05-tsc-converter-relaxed-publish", ids=["C05"], rule="C05.R5f", subs=[(BW, "_rdtsc_clock.store(new RdtscClock{_options.rdtsc_resync_interval}, std::memory_order_release);", "_rdtsc_clock.store(new RdtscClock{_options.rdtsc_resync_interval}, std::memory_order_relaxed);")]),
+ dict(name="c12-last-char-of-empty-message", ids=["C12"], rule="C12.R5b", subs=[(BW, "        ((transit_event.formatted_msg->size() > 0) &&", "        ((transit_event.formatted_msg->size() >= 0) &&")]),
+ dict(name="c19-escaped-brace-searched-from-plus-2", ids=["C19"], rule="C19.R5b", subs=[(BW, "      if (size_t const open_bracket_2_pos = fmt_template.find_first_of('{', open_bracket_pos + 1);", "      if (size_t const open_bracket_2_pos = fmt_template.find_first_of('{', open_bracket_pos + 2);")]),
+ dict(name="c07-worker-thread-id-not-recorded", ids=["C07"], rule="C07.R6c", subs=[(BW, "    _worker_thread_id.store(get_thread_id());\n\n    (void)get_thread_name();", "    (void)get_thread_name();")]),
+ dict(name="c08-single-drop-not-reported", ids=["C08"], rule="C08.R4f", subs=[(BW, "        if (QUILL_UNLIKELY(failed_messages_cnt > 0))", "        if (QUILL_UNLIKELY(failed_messages_cnt > 1))")]),
+ dict(name="c20-unbounded-dtor-frees-nothing", ids=["C20"], rule="C20.R7a", subs=[(U, "    while (current_node != nullptr)\n    {\n      auto const to_delete = current_node;", "    while (current_node == nullptr)\n    {\n      auto const to_delete = current_node;")]),
+ dict(name="c20-unbounded-dtor-reads-next-of-deleted-node", ids=["C20"], rule="C20.R7a", subs=[(U, "      current_node = current_node->next;\n      delete to_delete;", "      delete to_delete;\n      current_node = current_node->next;")]),
  dict(name="c13-localtime_rs-calls-gmtime_r", ids=["C13"], rule="C13.R7a", subs=[("core/TimeUtilities.h", "  tm* res = localtime_r(timer, buf);", "  tm* res = gmtime_r(timer, buf);")]),
  dict(name="c13-timegm-via-mktime", ids=["C13"], rule="C13.R7a", subs=[("core/TimeUtilities.h", "  time_t const ret_val = ::timegm(tm);", "  time_t const ret_val = ::mktime(tm);")]),
  dict(name="c13-timegm-failure-returned", ids=["C13"], rule="C13.R7c", subs=[("core/TimeUtilities.h", """  if (QUILL_UNLIKELY(ret_val == (time_t)-1))
